@@ -110,6 +110,19 @@ func boundedValueRules() bool {
 			}
 		}
 	}
+	// software components: profile 1 takes a nil list for "no measurements", profile 2 has no such form
+	for _, prof := range []string{Profile1Name, Profile2Name} {
+		c, _ := NewClaims(prof)
+		if err := c.SetSoftwareComponents(nil); (err == nil) != (prof == Profile1Name) {
+			bad("%s SetSoftwareComponents(nil): %v", prof, err)
+		}
+		if err := c.SetSoftwareComponents([]ISwComponent{(*SwComponent)(nil)}); err == nil {
+			bad("%s SetSoftwareComponents([nil]) accepted", prof)
+		}
+		if err := c.SetSoftwareComponents(hComponents(2, 1)); err != nil {
+			bad("%s SetSoftwareComponents(valid): %v", prof, err)
+		}
+	}
 	for _, s := range hCertNeighbours() {
 		for _, prof := range []string{Profile1Name, Profile2Name} {
 			want := hEAN13p5(s) || (prof == Profile1Name && hEAN13(s))
